@@ -73,6 +73,12 @@ def solve(spec, height):
                         dom_heuristic_idx=spec.get("dom_h", 0), stack_max_height=height, log_level="ERROR", **kw)
     out = []
     limit = spec.get("limit", 1)
+    if spec.get("op") in ("min", "max"):
+        r = s.minimize(spec["objective"]) if spec["op"] == "min" else s.maximize(spec["objective"])
+        out = [[int(x) for x in r]] if r is not None else []
+        st = s.get_statistics()
+        return {"solutions": out if len(out[0] if out else []) <= 40 else [[sum(o), len(o)] for o in out], "n": len(out),
+                "depth": st["SOLVER_CHOICE_DEPTH"], "choices": st["SOLVER_CHOICE_NB"]}
     for sol in s.solve():
         out.append([int(x) for x in sol])
         if len(out) >= limit:
